@@ -20,6 +20,8 @@ import (
 
 // Session owns one scratch Go module in which designs are generated and built.
 type Session struct {
+	protocOnce sync.Once
+	protocErr  error
 	// GenTimeout bounds one goaeval run (0 = 120s)
 	GenTimeout time.Duration
 	Root      string // scratch directory (the module root, module name "scratch")
@@ -107,6 +109,33 @@ replace goa.design/clue => %s/stubs/clue
 	return s, nil
 }
 
+func hasGRPC(d *model.Design) bool {
+	for _, svc := range d.Services {
+		if svc.HasGRPC {
+			return true
+		}
+	}
+	return false
+}
+
+// ensureProtoc builds the protoc stand-in and protoc-gen-go into <root>/bin (once per session).
+func (s *Session) ensureProtoc() error {
+	s.protocOnce.Do(func() {
+		bin := filepath.Join(s.Root, "bin")
+		_ = os.MkdirAll(bin, 0o755)
+		for out, pkg := range map[string]string{"protoc": "./cmd/protocshim", "protoc-gen-go": "google.golang.org/protobuf/cmd/protoc-gen-go"} {
+			cmd := exec.Command("go", "build", "-o", filepath.Join(bin, out), pkg)
+			cmd.Dir = s.VerifRoot
+			cmd.Env = GoEnv()
+			if o, err := cmd.CombinedOutput(); err != nil {
+				s.protocErr = fmt.Errorf("building %s: %v\n%s", out, err, o)
+				return
+			}
+		}
+	})
+	return s.protocErr
+}
+
 // Close removes the scratch module.
 func (s *Session) Close() {
 	if os.Getenv("VERIF_KEEP") != "" {
@@ -173,7 +202,17 @@ func (s *Session) Eval(r *Run, cmd string, timeout time.Duration) *Verdict {
 	defer cancel()
 	c := exec.CommandContext(ctx, s.GoaEval, "-design", filepath.Join(r.Dir, "program.json"), "-out", r.Dir, "-cmd", cmd)
 	c.Dir = r.Dir
-	c.Env = append(GoEnv(), "PATH="+filepath.Join(s.VerifRoot, "stubs", "bin")+":"+os.Getenv("PATH"))
+	path := os.Getenv("PATH")
+	env := GoEnv()
+	if cmd != "eval" && (r.Design == nil || hasGRPC(r.Design)) {
+		// goa's gRPC generator runs protoc: the stand-in (cmd/protocshim) and the real protoc-gen-go
+		if err := s.ensureProtoc(); err != nil {
+			return &Verdict{Stage: cmd, Raw: "protoc stand-in: " + err.Error(), ExitCode: -1}
+		}
+		path = filepath.Join(s.Root, "bin") + ":" + path
+		env = append(env, "VERIF_PROTOC_GEN_GO="+filepath.Join(s.Root, "bin", "protoc-gen-go"))
+	}
+	c.Env = append(env, "PATH="+path)
 	var stdout, stderr bytes.Buffer
 	c.Stdout, c.Stderr = &stdout, &stderr
 	err := c.Run()
